@@ -104,7 +104,7 @@ def h_optimality(ctx):
     if ctx.sym:
         rec = stubs.REGRESSION_LOG[-1]
         sc = stubs.SCALER_LOG[-1]
-        ctx.claim("weights are passed as sample_weight", (rec["w"] is None) if w is None else all(a is b for a, b in zip(rec["w"], w)))
+        ctx.claim("weights are passed as sample_weight", (rec["w"] is None) if w is None else (rec["w"] is not None and all(a is b for a, b in zip(rec["w"], w))))
         ctx.claim("damping is the Ridge alpha; no damping means plain LinearRegression", (rec["kind"] == "StubLinearRegression" and rec["alpha"] is None) if alpha is None else (rec["kind"] == "StubRidge" and rec["alpha"] is alpha))
         ctx.claim("the scaler is given the caller's Jacobian and copies it iff copy_jacobian", And(sc["input"] is J, sc["copy"] == copy))
         ctx.claim("data handed to the solver raveled, same values", And([eq(a, b) for a, b in zip(rec["y"], d)]))
